@@ -57,6 +57,11 @@ class Batch:
                     b = {"ok": partition(b["ok"])}
                 elif proj == "sorted":
                     b = {"ok": sorted(b["ok"])}
+                elif proj == "header-text":
+                    b = {"ok": b["ok"]["text"]}
+                elif proj == "header-value":
+                    v = b["ok"]["value"]         # CPython reads source with universal newlines
+                    b = {"ok": v.replace("\r\n", "\n").replace("\r", "\n") if isinstance(v, str) else v}
                 elif proj == "closure":
                     b = {"ok": [[x - 1 for x in g] for g in b["ok"]]}
                 elif proj == "strtype":
